@@ -11,13 +11,19 @@ pub fn copy_file_range(
     dest_offset: u64,
     len: usize,
 ) -> crate::Result<usize> {
+    // The kernel takes pointers to the offsets (a null pointer means "use and move the file's own
+    // position"), the values themselves have to live in memory for the duration of the call
+    #[expect(clippy::cast_possible_wrap)]
+    let mut src_offset = src_offset as i64;
+    #[expect(clippy::cast_possible_wrap)]
+    let mut dest_offset = dest_offset as i64;
     let res = unsafe {
         syscall!(
             COPY_FILE_RANGE,
             src_fd.value(),
-            src_offset,
+            core::ptr::addr_of_mut!(src_offset),
             dest_fd.value(),
-            dest_offset,
+            core::ptr::addr_of_mut!(dest_offset),
             len,
             0
         )
